@@ -106,9 +106,11 @@ class TransactionBackend(Backend):
     async def expire(self, key: Key, timeout: float):
         if self._key_is_delete(key):
             return
+        if await self._local_cache.exists(key):
+            return await self._local_cache.expire(key, timeout)
         value = await self._backend.get(key, default=_empty)
         if value is _empty:
-            return await self._local_cache.expire(key, timeout)
+            return
         await self._local_cache.set(key, value, expire=timeout)
 
     # non transaction - proxy methods with custom logic
